@@ -265,12 +265,12 @@ class SModel(KModel):
             raise Unsupported("take by an unknown count", e)
         if name in ('std::iter::Iterator::for_each',) and as_rowiter(a0) is not None:
             clo = args[1]
-            return self.loop_call(None, lambda: self.iterate_rows(as_rowiter(a0).d['tree'], lambda elem: self.interp.apply(clo, [elem], e), e))
+            return self.loop_call(frame, lambda: self.iterate_rows(as_rowiter(a0).d['tree'], lambda elem: self.interp.apply(clo, [elem], e), e))
         rng, rrev = (a0, False) if isinstance(a0, Enum) and a0.adt == 'std::ops::Range' else \
             ((a0.d['range'], True) if isinstance(a0, Obj) and a0.kind == 'revrange' else (None, False))
         if rng is not None and name == 'std::iter::Iterator::for_each':
             clo = args[1]
-            return self.loop_call(None, lambda: self.iterate_range(rng, rrev, lambda jn: self.interp.apply(clo, [jn], e), e))
+            return self.loop_call(frame, lambda: self.iterate_range(rng, rrev, lambda jn: self.interp.apply(clo, [jn], e), e))
         if rng is not None and name == 'std::iter::Iterator::fold':
             clo = args[2]
             fr = Frame()
